@@ -28,7 +28,7 @@ MAX_K = 14
 
 def REQUIRED(tier):
     return ["snapshots_taken", "snapshot_prefix_checks", "kill_children", "kill:died_at_point", "kill:survivor_opened", "truncations", "strace_runs", "strace_write_events",
-            "writers_covered"]
+            "writers_covered", "snapshot:preexisting_output", "kill:preexisting_output"]
 
 
 def EXHAUSTIVE(tier):
@@ -40,9 +40,12 @@ def cases(tier, seed):
     for w in c20_scen.WRITERS:
         for g in gulps:
             yield {"kind": "snapshot", "writer": w, "gulp": g}
+        yield {"kind": "snapshot", "writer": w, "gulp": 5, "pre": True}   # re-run over an existing, longer output of the same name
     for w in c20_scen.WRITERS:
         for k in range(MAX_K):
             yield {"kind": "kill", "writer": w, "gulp": 5, "k": k}
+        for k in (0, 2, 4):
+            yield {"kind": "kill", "writer": w, "gulp": 5, "k": k, "pre": True}
         if tier == "thorough":
             for k in range(0, 30, 1):
                 yield {"kind": "kill", "writer": w, "gulp": 1, "k": k}
@@ -94,7 +97,9 @@ def _snapshot(case, ctx):
     ctx.evaluated()
     ctx.count("writers_covered")
     try:
-        outs = c20_scen.run_writer(case["writer"], d, case["gulp"])
+        outs = c20_scen.run_writer(case["writer"], d, case["gulp"], preexisting=bool(case.get("pre")))
+        if case.get("pre"):
+            ctx.count("snapshot:preexisting_output")
     except Exception as exc:  # noqa: BLE001
         _hook["active"] = None
         ctx.violation(f"writer-raised:{case['writer']}:{type(exc).__name__}@{exc_site(exc)}", fmt_exc(exc), case)
@@ -146,9 +151,9 @@ def _snapshot(case, ctx):
     shutil.rmtree(d, ignore_errors=True)
 
 
-def _child(writer, d, gulp, k, strace_out=None):
+def _child(writer, d, gulp, k, strace_out=None, pre=False):
     env = dict(os.environ)
-    cmd = [sys.executable, "-X", "faulthandler", "-m", "vlib.c20_scen", writer, d, str(gulp), str(k)]
+    cmd = [sys.executable, "-X", "faulthandler", "-m", "vlib.c20_scen", writer, d, str(gulp), str(k)] + (["pre"] if pre else [])
     if strace_out:
         cmd = ["strace", "-f", "-y", "-xx", "-s", "1000000", "-o", strace_out, "-e",
                "trace=open,openat,write,pwrite64,pwritev,writev,lseek,ftruncate,fallocate,dup,dup2,dup3,fcntl,close,rename,renameat,renameat2,unlink,unlinkat,mmap"] + cmd
@@ -175,7 +180,9 @@ def _kill(case, ctx):
     d = _newdir(ctx, "k")
     ctx.evaluated(); ctx.count("kill_children")
     try:
-        res = _child(w, d, gulp, k)
+        res = _child(w, d, gulp, k, pre=bool(case.get("pre")))
+        if case.get("pre"):
+            ctx.count("kill:preexisting_output")
     except subprocess.TimeoutExpired:
         ctx.skip("child watchdog"); return
     died = res.returncode == 137
@@ -195,6 +202,11 @@ def _kill(case, ctx):
         return
     inside = False
     for name in present:
+        if case.get("pre") and name in ref:
+            stale = sigfile.encode_header(sigfile.std_items(nchans=c20_scen.NCH, nbits=8, source_name="STALE")) + bytes(range(256)) * 8
+            if open(os.path.join(d, name), "rb").read() == stale:
+                ctx.count("kill:stale_output_not_yet_reopened")  # an older product the writer has not touched yet is not a partial output
+                continue
         if name not in ref:
             ctx.violation(f"unexpected-file:{w}", f"{name} exists after the crash but is not an output of the uninterrupted run (temporary file?)", case)
             return
